@@ -1091,4 +1091,201 @@ theorem C08_response_to_finished_request_is_handled (cfg : Cfg) (tbl : List Pend
 example : tableOf [⟨"p1", ⟨"", "iq"⟩, .sendFailed⟩, ⟨"p2", ⟨"", "iq"⟩, .waiting⟩, ⟨"p3", ⟨"", "iq"⟩, .gaveUp⟩]
     = [⟨"p2", ⟨"", "iq"⟩⟩] := by decide
 
+/-! ### Round G: exact view / one invocation per element with local requests pending -/
+
+/-- an element the table of pending requests does not claim: it is not of type result / error, or
+no waiting request has its id and name -/
+def Unclaimed (cfg : Cfg) (pend : List Pend) (c : Case) : Prop :=
+  isReplyTyp (getTyp (blankFrom cfg c.n c.as)) = false ∨
+    pendMatch pend (getId (blankFrom cfg c.n c.as)) c.n = none
+
+example : Unclaimed { ns := nsClient, localBare := "me@example.com", jidCanon := fun s => some s }
+    [⟨"p1", ⟨"", "iq"⟩⟩]
+    { n := ⟨nsClient, "iq"⟩, as := [attr "type" "result", attr "id" "other"], body := [.stop ⟨nsClient, "iq"⟩],
+      prog := Prog.nop, added := [] } := Or.inr (by decide)
+
+/-- **exact view and resynchronisation with requests pending**: a well-formed element that no
+waiting request claims is handled by `handleInputStreamP` exactly as `C08_exact_view_resync` says —
+the handler's reads return the element's tokens through its end tag and then EOF, the input then
+stands at the token after the end tag whatever was consumed — and the table is unchanged -/
+theorem C08_exact_view_resync_pending (cfg : Cfg) (pend : List Pend) (c : Case) (hc : c.Ok cfg)
+    (hu : Unclaimed cfg pend c) (a : Nat) (rest : List Tok) :
+    handleInputStreamP cfg pend { inp := c.toks ++ rest, dIn := a, dOut := 0, sticky := none } c.prog
+      = (.next (some (c.inv cfg)) c.written { inp := rest, dIn := a, dOut := 0, sticky := none }, pend, none) := by
+  have hstep := handleInputStream_elem cfg
+    { inp := c.toks ++ rest, dIn := a, dOut := 0, sticky := none }
+    c.n c.as c.body rest c.prog (by simp [Case.toks]) hc.ns
+    (by simpa using splitElem_ext c.body 0 c.body [] rest hc.wf)
+    hc.pl hc.ret c.added hc.add
+  have hdel : deliveredTo cfg pend { inp := c.toks ++ rest, dIn := a, dOut := 0, sticky := none } = none := by
+    unfold deliveredTo
+    have hnext : ({ ({ inp := c.toks ++ rest, dIn := a, dOut := 0, sticky := none } : RS) with dOut := 0, sticky := none } : RS).next
+        = (.tok (.start c.n c.as), { inp := c.body ++ rest, dIn := a + 1, dOut := 1, sticky := none }) := by
+      simp [RS.next, Case.toks, verdict, hc.ns]
+    rw [hnext]
+    rcases hu with h | h
+    · simp [h]
+    · simp [h]
+  rw [C08_unawaited_element_handled cfg pend _ c.prog hdel, hstep]
+  simp [Case.inv, Case.written]
+
+/-- **one invocation per top-level element, in arrival order, with requests pending**: a sequence
+of well-formed elements none of which a waiting request claims is served by `serveFP` (the machine
+behind `servepw`) exactly as by `serveF`: one invocation per element with its exact view, each
+handler's output followed by what the session adds, the table unchanged, nothing delivered, then
+whatever the loop does with the rest of the input -/
+theorem C08_serveFP_cases (cfg : Cfg) (pend : List Pend) : ∀ (cs : List Case) (fuel a : Nat) (tail : List Tok),
+    (∀ c ∈ cs, c.Ok cfg) → (∀ c ∈ cs, Unclaimed cfg pend c) →
+    serveFP cfg (fuel + cs.length) pend { inp := cs.flatMap Case.toks ++ tail, dIn := a, dOut := 0, sticky := none }
+        (cs.map (·.prog))
+      = { out :=
+            { invs := cs.map (Case.inv cfg) ++ (serveFP cfg fuel pend { inp := tail, dIn := a, dOut := 0, sticky := none } []).out.invs,
+              written := cs.flatMap Case.written ++ (serveFP cfg fuel pend { inp := tail, dIn := a, dOut := 0, sticky := none } []).out.written,
+              result := (serveFP cfg fuel pend { inp := tail, dIn := a, dOut := 0, sticky := none } []).out.result },
+          delivered := (serveFP cfg fuel pend { inp := tail, dIn := a, dOut := 0, sticky := none } []).delivered } := by
+  intro cs
+  induction cs with
+  | nil => intro fuel a tail _ _; simp
+  | cons c cs ih =>
+    intro fuel a tail hok hun
+    have hstep := C08_exact_view_resync_pending cfg pend c (hok c (by simp)) (hun c (by simp)) a
+      (cs.flatMap Case.toks ++ tail)
+    have hin : (c :: cs).flatMap Case.toks ++ tail = c.toks ++ (cs.flatMap Case.toks ++ tail) := by
+      simp [List.append_assoc]
+    have := ih fuel a tail (fun x hx => hok x (by simp [hx])) (fun x hx => hun x (by simp [hx]))
+    rw [show fuel + (c :: cs).length = (fuel + cs.length) + 1 by simp; omega, hin]
+    simp only [serveFP, List.map_cons, List.headD_cons, hstep, Option.isSome_some, if_true, List.tail_cons]
+    rw [this]
+    simp [List.append_assoc]
+
+/-- … followed by the peer's closing tag: `Serve` ends without error, one invocation per element,
+nothing handed to a waiter -/
+theorem C08_one_per_element_pending (cfg : Cfg) (pend : List Pend) (cs : List Case) (junk : List Tok)
+    (hok : ∀ c ∈ cs, c.Ok cfg) (hun : ∀ c ∈ cs, Unclaimed cfg pend c) :
+    serveP cfg pend (cs.flatMap Case.toks ++ .stop ⟨nsStream, "stream"⟩ :: junk) (cs.map (·.prog))
+      = { out := { invs := cs.map (Case.inv cfg), written := cs.flatMap Case.written, result := .clean },
+          delivered := [] } := by
+  have hlen : cs.length ≤ (cs.flatMap Case.toks).length := by
+    clear hun
+    induction cs with
+    | nil => simp
+    | cons c cs ih =>
+      have := ih (fun x hx => hok x (by simp [hx]))
+      rw [List.flatMap_cons, List.length_append]
+      simp only [Case.toks, List.length_cons]
+      omega
+  unfold serveP
+  obtain ⟨f, hf⟩ : ∃ f, (cs.flatMap Case.toks ++ Tok.stop ⟨nsStream, "stream"⟩ :: junk).length + 1
+      = (f + 1) + cs.length :=
+    ⟨(cs.flatMap Case.toks).length - cs.length + junk.length + 1, by
+      rw [List.length_append, List.length_cons]; omega⟩
+  rw [hf]
+  have := C08_serveFP_cases cfg pend cs (f + 1) 0 (.stop ⟨nsStream, "stream"⟩ :: junk) hok hun
+  simp only [RS.init]
+  rw [this]
+  simp [serveFP, handleInputStreamP, deliveredTo, handleInputStream, RS.next, verdict, nsStream]
+
+/-! ### Round G: exact view / one invocation per element for the machine with output states -/
+
+/-- a handler that leaves the output as it found it: it does not close it, what it writes (and what
+the session adds) are whole elements, and the last of its `SetCloseDeadline` calls (if any) names
+a time in the future -/
+structure OpenOk (c : Case) : Prop where
+  noClose : c.prog.close = false
+  whole : leavesBroken (writesOf c.prog.ops) = false
+  wholeAll : leavesBroken c.written = false
+  live : expiredAfter c.prog.dls false = false
+
+/-- **exact view and resynchronisation, machine with output states**: with the output open, a
+well-formed element whose handler leaves the output as it found it is handled by
+`handleInputStreamC` with the exact view of `C08_exact_view_resync`, the input then stands at the
+token after its end tag, and what reaches the wire is what the encoder lets through -/
+theorem C08_exact_view_resync_open_output (cfg : Cfg) (c : Case) (hc : c.Ok cfg) (ho : OpenOk c)
+    (a : Nat) (rest : List Tok) :
+    handleInputStreamC cfg .opn { inp := c.toks ++ rest, dIn := a, dOut := 0, sticky := none } c.prog
+      = .next (some (c.inv cfg)) (encWire 0 c.written).2.2 { inp := rest, dIn := a, dOut := 0, sticky := none } := by
+  have hstep := handleInputStream_elem cfg
+    { inp := c.toks ++ rest, dIn := a, dOut := 0, sticky := none }
+    c.n c.as c.body rest c.prog (by simp [Case.toks]) hc.ns
+    (by simpa using splitElem_ext c.body 0 c.body [] rest hc.wf)
+    hc.pl hc.ret c.added hc.add
+  rw [C08_open_output cfg _ c.prog ho.noClose ho.whole, hstep]
+  simp [Step.mapWritten, Case.inv, Case.written]
+
+/-- **one invocation per top-level element, machine with output states** (`serveFC`, what the
+driver runs for `servex`): with the output open and the deadline not passed, a sequence of
+well-formed elements whose handlers leave the output as they found it gives one invocation per
+element with its exact view, in order, the output stays open, then whatever the loop does with
+the rest of the input -/
+theorem C08_serveFC_cases (cfg : Cfg) : ∀ (cs : List Case) (fuel a : Nat) (tail : List Tok),
+    (∀ c ∈ cs, c.Ok cfg) → (∀ c ∈ cs, OpenOk c) →
+    serveFC cfg (fuel + cs.length) .opn false { inp := cs.flatMap Case.toks ++ tail, dIn := a, dOut := 0, sticky := none }
+        (cs.map (·.prog))
+      = { invs := cs.map (Case.inv cfg) ++ (serveFC cfg fuel .opn false { inp := tail, dIn := a, dOut := 0, sticky := none } []).invs,
+          written := cs.flatMap (fun c => (encWire 0 c.written).2.2)
+            ++ (serveFC cfg fuel .opn false { inp := tail, dIn := a, dOut := 0, sticky := none } []).written,
+          result := (serveFC cfg fuel .opn false { inp := tail, dIn := a, dOut := 0, sticky := none } []).result } := by
+  intro cs
+  induction cs with
+  | nil => intro fuel a tail _ _; simp
+  | cons c cs ih =>
+    intro fuel a tail hok hop
+    have hc := hok c (by simp)
+    have ho := hop c (by simp)
+    have hstepC := C08_exact_view_resync_open_output cfg c hc ho a (cs.flatMap Case.toks ++ tail)
+    have hstep := handleInputStream_elem cfg
+      { inp := c.toks ++ (cs.flatMap Case.toks ++ tail), dIn := a, dOut := 0, sticky := none }
+      c.n c.as c.body (cs.flatMap Case.toks ++ tail) c.prog (by simp [Case.toks]) hc.ns
+      (by simpa using splitElem_ext c.body 0 c.body [] (cs.flatMap Case.toks ++ tail) hc.wf)
+      hc.pl hc.ret c.added hc.add
+    have hin : (c :: cs).flatMap Case.toks ++ tail = c.toks ++ (cs.flatMap Case.toks ++ tail) := by
+      simp [List.append_assoc]
+    have hout : outAfter .opn c.prog (writesOf c.prog.ops ++ c.added) = .opn := by
+      have := ho.wholeAll
+      simp only [Case.written] at this
+      simp [outAfter, ho.noClose, this]
+    have := ih fuel a tail (fun x hx => hok x (by simp [hx])) (fun x hx => hop x (by simp [hx]))
+    rw [show fuel + (c :: cs).length = (fuel + cs.length) + 1 by simp; omega, hin]
+    simp only [serveFC, Bool.false_eq_true, ↓reduceIte, List.map_cons, List.headD_cons, hstepC, hstep,
+      Step.written, Option.isSome_some, if_true, List.tail_cons, hout, ho.live, Bool.and_false, Bool.true_and]
+    rw [this]
+    simp [List.append_assoc]
+
+/-- … followed by the peer's closing tag: `Serve` ends without error -/
+theorem C08_one_per_element_open_output (cfg : Cfg) (cs : List Case) (junk : List Tok)
+    (hok : ∀ c ∈ cs, c.Ok cfg) (hop : ∀ c ∈ cs, OpenOk c) :
+    serveC cfg false (cs.flatMap Case.toks ++ .stop ⟨nsStream, "stream"⟩ :: junk) (cs.map (·.prog))
+      = { invs := cs.map (Case.inv cfg), written := cs.flatMap (fun c => (encWire 0 c.written).2.2),
+          result := .clean } := by
+  have hlen : cs.length ≤ (cs.flatMap Case.toks).length := by
+    clear hop
+    induction cs with
+    | nil => simp
+    | cons c cs ih =>
+      have := ih (fun x hx => hok x (by simp [hx]))
+      rw [List.flatMap_cons, List.length_append]
+      simp only [Case.toks, List.length_cons]
+      omega
+  unfold serveC
+  obtain ⟨f, hf⟩ : ∃ f, (cs.flatMap Case.toks ++ Tok.stop ⟨nsStream, "stream"⟩ :: junk).length + 1
+      = (f + 1) + cs.length :=
+    ⟨(cs.flatMap Case.toks).length - cs.length + junk.length + 1, by
+      rw [List.length_append, List.length_cons]; omega⟩
+  rw [hf]
+  have := C08_serveFC_cases cfg cs (f + 1) 0 (.stop ⟨nsStream, "stream"⟩ :: junk) hok hop
+  simp only [RS.init, Bool.false_eq_true, ↓reduceIte]
+  rw [this]
+  simp [serveFC, handleInputStreamC, handleInputStream, RS.next, verdict, nsStream]
+
+/-- a message whose handler reads one token, writes a whole element, and moves the deadline twice
+(past, then future) -/
+def openOkExample : Case :=
+  { n := ⟨nsClient, "message"⟩
+    as := []
+    body := [Tok.stop ⟨nsClient, "message"⟩]
+    prog := { ops := [Op.read, Op.write [Tok.start ⟨"", "presence"⟩ [], Tok.stop ⟨"", "presence"⟩]], ret := Ret.ok, dls := [2, 1] }
+    added := [] }
+
+example : OpenOk openOkExample := ⟨rfl, by decide, by decide, by decide⟩
+
 end XmppModel.Props.C08
